@@ -4,7 +4,7 @@ import sys
 
 from orchestrate.common import run_check
 
-E2E_KINDS = ("P", "R", "X", "G")
+E2E_KINDS = ("P", "R", "X", "G", "N", "K", "S")
 REPO = os.environ.get("VERIF_REPO", "/repo")
 
 # ---------------------------------------------------------------- census (structure pin)
@@ -137,7 +137,9 @@ def _extra(lines, verdicts):
            "alloc_failures": 0, "dropped_never_written": 0, "dropped_before_write": 0, "dropped_after_write": 0,
            "dropped_after_response": 0, "max_outstanding_on_one_connection": 0, "exhaustion_runs_reaching_32768": 0,
            "oversized_frames_on_the_wire": 0, "not_run_env": 0, "exhaustion_runs_total": 0,
-           "exhaustion_runs_with_refusal_after_abandon_and_wait": 0}
+           "exhaustion_runs_with_refusal_after_abandon_and_wait": 0, "frames_on_negative_stream_ids": 0,
+           "threshold_runs_connection_ended": 0, "threshold_runs_connection_kept": 0,
+           "callers_failed_by_orphan_threshold": 0, "submit_storm_runs": 0, "submit_storm_callers_aborted": 0}
     timed = {"cases": 0, "allocations_refused_after_real_wait": 0, "count_probes": 0}
     reader = {"cases": 0, "frames_returned": 0, "bodies_over_256MiB": 0}
     for ln in lines:
@@ -172,10 +174,15 @@ def _extra(lines, verdicts):
                     e2e["frames_received_by_mock"] += 1
                 elif c == "o":
                     sid, m = e[1:].split(".")[:2]
+                    if int(sid, 16) >= 0x8000:
+                        e2e["frames_on_negative_stream_ids"] += 1
+                        continue
                     pos_out[m] = i
                     outst.discard(sid)
                 elif c == "d":
                     m, o = e[1:].split(".", 1)
+                    if o == "xTooManyOrphanedStreamIds":
+                        e2e["callers_failed_by_orphan_threshold"] += 1
                     if o == "a":
                         e2e["alloc_failures"] += 1
                     elif o == "r" + m:
@@ -194,6 +201,14 @@ def _extra(lines, verdicts):
             e2e["max_outstanding_on_one_connection"] = max(e2e["max_outstanding_on_one_connection"], mx)
             if mx >= 32768:
                 e2e["exhaustion_runs_reaching_32768"] += 1
+            if k == "S":
+                e2e["submit_storm_runs"] += 1
+                e2e["submit_storm_callers_aborted"] += sum(1 for e in ev if e[0] == "c" and not e.startswith("close"))
+            if k == "K":
+                if any(e.startswith("close") for e in ev):
+                    e2e["threshold_runs_connection_ended"] += 1
+                else:
+                    e2e["threshold_runs_connection_kept"] += 1
             if k == "G" and any(e.startswith("o") and e.endswith(".f4240") for e in ev):
                 e2e["oversized_frames_on_the_wire"] += 1
             continue
@@ -232,7 +247,12 @@ def _extra(lines, verdicts):
 
 # what a run must really have exercised (non-replay runs): (quick, thorough)
 FLOORS = {
-    ("end_to_end", "runs"): (45, 550),
+    ("end_to_end", "runs"): (62, 680),
+    ("end_to_end", "submit_storm_callers_aborted"): (2000, 20000),
+    ("end_to_end", "frames_on_negative_stream_ids"): (100, 1000),
+    ("end_to_end", "threshold_runs_connection_ended"): (1, 3),
+    ("end_to_end", "threshold_runs_connection_kept"): (1, 3),
+    ("end_to_end", "callers_failed_by_orphan_threshold"): (1, 10),
     ("end_to_end", "completed_with_own_answer"): (50000, 400000),
     ("end_to_end", "exhaustion_runs_reaching_32768"): (1, 8),
     ("end_to_end", "exhaustion_runs_with_refusal_after_abandon_and_wait"): (1, 8),
@@ -278,7 +298,7 @@ SPEC = {
     "coq_targets": ["Props/C02.vo", "Extract/ExC02.vo"],
     "bin": "c02",
     "sizes": {"quick": 40000, "thorough": 1200000},
-    "min_cases": {"quick": 40300, "thorough": 1203000},
+    "min_cases": {"quick": 40350, "thorough": 1203700},
     "post": post,
     "search_n": 300000,
     "rule": ("state machine (hook H1): one case = one operation sequence on the real ResponseHandlerMap, every return value and the "
@@ -292,6 +312,10 @@ SPEC = {
              "multi-thread runtime, answers delayed and reordered; X = 32768 requests held by the mock, extra requests, callers "
              "abandoned, > 1 s wait, more requests, release; G = a response frame with a body > 256 MiB whose tail looks "
              "like frames for other in-flight streams; the merged history is judged by the extracted acceptor c02_trace_ok. "
+             "S = submit storm: up to 2000 caller tasks on 3 workers, each aborted from outside within 3 ms while the submissions race "
+             "for the 1024 channel slots (request id allocated -> slot awaited -> task pushed); N = R with about one answer in 12 sent on a negative stream id (-1, -2, -100, -32768, -32767); K = 1..1500 callers abandoned "
+             "while the mock holds their answers: the orphaner's tick must end the connection iff more than 1024 ids have been "
+             "orphaned for over 1 s (model: orphaner_tick_breaks), then every live caller fails and none holds rows. "
              "O = read_response_frame over generated byte streams (incl. a 256 MiB + 64 KiB body) against the extracted reader "
              "model / its law. non-trivial = allocation and lookup/orphan (sm), a request written and a caller completed (e2e); "
              "distinct = distinct case lines"),
@@ -305,10 +329,11 @@ SPEC = {
         "code through the handler-map operations (sm tie) and through the acceptor c02_trace_ok, which accepts every history of the "
         "model (C02_trace_sound) and is run on histories of the real connection (e2e tie)",
         "mocknode (harness/src/mocknode) and harness/src/c02_e2e.rs: the mock's frame trace, the echo of the marker, the merge of "
-        "caller-side stamps (submit stamped before the call, outcome after it) with the mock's events by one monotonic clock; the "
-        "acceptor's clauses use only orders that survive this skew (argued in docs/C02.md, not proved)",
+        "caller-side stamps (submit stamped before the call, outcome after it) with the mock's events by one monotonic clock; an "
+        "accepted skewed observation implies the property for the real history (C02_trace_skew); that the skewed observation of "
+        "a correct run is accepted is argued in docs/C02.md, not proved",
         "old_orphans_count in timed cases is accepted within the bracket [count with latest orphaning / earliest reading, count with "
-        "earliest orphaning / latest reading]; the bracket argument rests on C02_old_count_mono and C02_old_count_bracket",
+        "earliest orphaning / latest reading]: C02_count_bracket_run",
         "oversized reader cases (> 20 kB) are compared with the driver's native evaluation of the law C02_reader_frames on the stream "
         "description (cross-checked against the extracted read_frames on every small case); body equality through a sampled FNV digest",
         "u64::trailing_ones is modelled as the number of consecutive one bits from bit 0",
